@@ -467,6 +467,21 @@ func runC16(c *Ctx) {
 					}
 					return false
 				})
+				if !excused {
+					// the tests may live in a predicate helper: every way the helper gives this answer is one of them
+					excused = fx.edgeEstablishesAll(from, to, func(s FactSet) bool {
+						_, e := s.find(func(f Fact) bool {
+							str := f.T.String()
+							for _, a := range allowed {
+								if strings.Contains(str, a) {
+									return true
+								}
+							}
+							return false
+						})
+						return e
+					})
+				}
 				return !excused
 			})
 			c.Check(ok, "O4", "MPT", funcKey(init)+": every job is pushed unless a documented filter or a missing/non-leaf queue excludes it", instrPos(in), "continue edges: option filters, queue existence, leaf test", "a job is dropped before ordering for another reason ("+pathStr(path)+")")
